@@ -284,8 +284,10 @@ def canon(x):
 
 
 def load_known(pid):
+    """findings/<pid>.jsonl: one JSON object per line, kind = known | fixed. Never written at run time.
+    (known_findings.jsonl at the top level is the concatenation of these files, kept for readers.)"""
     known, fixed = {}, {}
-    p = os.path.join(VERIF, "known_findings.jsonl")
+    p = os.path.join(VERIF, "findings", pid + ".jsonl")
     if os.path.exists(p):
         for line in open(p):
             line = line.strip()
